@@ -17,15 +17,20 @@ def main():
         if os.path.exists(log):
             last = open(log).read().strip().splitlines()[-1]
             m["confirmed"] = {"how": CONF_HOW, "result": "CONFIRMED" if last.startswith("CONFIRMED") else last}
-        out = subprocess.run(["./tools/seeded.sh", sid, "quick"], cwd="/verif", capture_output=True, text=True).stdout
+        cross = os.environ.get("RECORD_PROP", "")
+        cmd = ["./tools/seeded.sh", sid, "quick"] + ([cross] if cross else [])
+        out = subprocess.run(cmd, cwd="/verif", capture_output=True, text=True).stdout
         keys = []
         for k in re.findall(r"^violation key=(\S+)", out, re.M):
             if k not in keys:
                 keys.append(k)
         res = "DETECTED" if f"DETECTED {sid}" in out else "MISSED"
         det = m.get("detection", {})
-        det.update({"command": f"tools/seeded.sh {sid} quick  (= ./check {m['property']} quick against a scratch copy with patch.diff applied)",
-                    "result": res, "violation_keys": keys})
+        if cross:
+            det.setdefault("cross", {})[cross] = {"command": f"tools/seeded.sh {sid} quick {cross}  (= ./check {cross} quick against a scratch copy with patch.diff applied)", "result": res, "violation_keys": keys}
+        else:
+            det.update({"command": f"tools/seeded.sh {sid} quick  (= ./check {m['property']} quick against a scratch copy with patch.diff applied)",
+                        "result": res, "violation_keys": keys})
         m["detection"] = det
         json.dump(m, open(mp, "w"), indent=1)
         print(sid, res, keys[:3], flush=True)
